@@ -41,7 +41,9 @@ def encryptor_feed(ctx):
     from vlib import hist, store
     from props import upload_common as uc
     out = []
-    for i, first in enumerate([3596] if ctx.tier == 'quick' else [3596, 1, 4095, 8191, 5000]):
+    # (first = 0: the real gpg's own fragments, and a provider that starts reading 1.2 s late, so that the queue between the
+    # reader of gpg's output and the uploader is full most of the time - every block must still be hashed exactly once)
+    for i, first in enumerate([3596, 0] if ctx.tier == 'quick' else [3596, 0, 1, 4095, 8191, 5000]):
         rng = random.Random(ctx.seed + i)
         w = hist.World(ctx, 5000 + i, rng)
         home = uc.make_gnupghome(w.base)
@@ -57,11 +59,11 @@ def encryptor_feed(ctx):
                 f.write('import os, sys, time\nfirst = %d\nn = first\nwhile True:\n    buf = b""\n    while len(buf) < n:\n        x = os.read(0, n - len(buf))\n'
                         '        if not x: break\n        buf += x\n    if not buf: break\n    os.write(1, buf)\n    time.sleep(0.0002)\n    n = 4096\n' % first)
             with open(os.path.join(d, 'gpg'), 'w') as f:
-                f.write('#!/bin/bash\n/usr/bin/gpg "$@" | /usr/bin/env python3 %s/rechunk.py\n' % d)
+                f.write('#!/bin/bash\n/usr/bin/gpg "$@" | /usr/bin/env python3 %s/rechunk.py\n' % d if first else '#!/bin/bash\nexec /usr/bin/gpg "$@"\n')
             os.chmod(os.path.join(d, 'gpg'), 0o755)
             blobf = os.path.join(w.base, 'cipher.bin')
             o = core.run_lines(core.harness_exe(ctx), [core.req('upbackup', {'backup_path': os.path.join(w.root, g, b), 'group': g, 'name': b, 'passphrase': 'pp',
-                                                                              'max': None, 'chunked': True, 'out': blobf})],
+                                                                              'max': None, 'chunked': True, 'out': blobf, 'stall_ms': 0 if first else 1200})],
                                env=dict(os.environ, GNUPGHOME=home, PATH=d + ':' + os.environ.get('PATH', '/usr/bin:/bin')), timeout=600)[0]
             case = {'scenario': 'encryptor-feed', 'first_fragment': first}
             if not isinstance(o, dict) or o.get('result') != 'ok':
@@ -72,7 +74,7 @@ def encryptor_feed(ctx):
             got = (o.get('final') or {}).get('checksum')
             if got != want:
                 ctx.violation('property', 'the checksum the encryptor delivers (%s...) differs from the chunked SHA-256 (%s...) of the %d bytes it sent when gpg\'s output '
-                              'arrives in fragments %d,4096,4096,... (a fragment straddles a 4 MiB block boundary)' % (str(got)[:12], want[:12], len(blob), first), {'case': case})
+                              'arrives in fragments %d,4096,4096,... (a fragment straddles a 4 MiB block boundary; 0 = gpg\'s own fragments into a stalled provider)' % (str(got)[:12], want[:12], len(blob), first), {'case': case})
             out.append({'bytes': len(blob), 'first_fragment': first})
         finally:
             uc.kill_agent(home)
